@@ -337,8 +337,105 @@ pub fn leg_interleave(thorough: bool) -> Value {
             }
         }
     }
+    // ---- real threads (several Server instances, one SQLite directory / one in-memory storage): whatever the schedule,
+    // every accepted version must be on the single chain and no request may fail merely because of the overlap
+    let mut stress_runs = 0usize;
+    for backend in ["in-memory", "sqlite-instances"] {
+        for round in 0..(if thorough { 6 } else { 2 }) {
+            stress_runs += 1;
+            let cl = Uuid::new_v4();
+            let dir = tempfile::Builder::new().prefix("tcss-stress-").tempdir_in(if std::path::Path::new("/dev/shm").is_dir() { "/dev/shm" } else { "/tmp" }).unwrap();
+            let mem = Arc::new(InMemoryStorage::new());
+            struct Dyn2(Box<dyn Storage>);
+            impl Storage for Dyn2 {
+                fn txn(&self, c: Uuid) -> anyhow::Result<Box<dyn taskchampion_sync_server_core::StorageTxn + '_>> {
+                    self.0.txn(c)
+                }
+            }
+            let mk = || -> Box<dyn Storage> {
+                if backend == "in-memory" { Box::new(Shared(mem.clone())) } else { Box::new(SqliteStorage::new(dir.path()).unwrap()) }
+            };
+            let threads = 4usize;
+            let per = if thorough { 30usize } else { 12usize };
+            let accepted: Arc<Mutex<Vec<Uuid>>> = Arc::new(Mutex::new(vec![]));
+            let errors: Arc<Mutex<Vec<String>>> = Arc::new(Mutex::new(vec![]));
+            std::thread::scope(|sc| {
+                for t in 0..threads {
+                    let server = Server::new(ServerConfig::default(), Dyn2(mk()));
+                    let accepted = accepted.clone();
+                    let errors = errors.clone();
+                    sc.spawn(move || {
+                        let mut parent = NIL_VERSION_ID;
+                        for i in 0..per {
+                            // the handler's behaviour for a possibly unknown client, then AddVersion on what we believe is the latest
+                            loop {
+                                match server.add_version(cl, parent, format!("t{t}-{i}").into_bytes()) {
+                                    Ok((AddVersionResult::Ok(v), _)) => {
+                                        accepted.lock().unwrap().push(v);
+                                        parent = v;
+                                        break;
+                                    }
+                                    Ok((AddVersionResult::ExpectedParentVersion(l), _)) => {
+                                        parent = l; // a well-behaved replica rebases and retries
+                                    }
+                                    Err(ServerError::NoSuchClient) => {
+                                        let mut tx = match server.txn(cl) {
+                                            Ok(t) => t,
+                                            Err(e) => {
+                                                errors.lock().unwrap().push(format!("txn: {e}"));
+                                                break;
+                                            }
+                                        };
+                                        match tx.get_client() {
+                                            Ok(None) => {
+                                                if let Err(e) = tx.new_client(NIL_VERSION_ID).and_then(|_| tx.commit()) {
+                                                    errors.lock().unwrap().push(format!("create: {e}"));
+                                                    break;
+                                                }
+                                            }
+                                            Ok(Some(_)) => {}
+                                            Err(e) => {
+                                                errors.lock().unwrap().push(format!("get_client: {e}"));
+                                                break;
+                                            }
+                                        }
+                                    }
+                                    Err(e) => {
+                                        errors.lock().unwrap().push(format!("add_version: {e}").lines().next().unwrap_or("").to_string());
+                                        break;
+                                    }
+                                }
+                            }
+                        }
+                    });
+                }
+            });
+            let acc = accepted.lock().unwrap().clone();
+            let errs = errors.lock().unwrap().clone();
+            let probe = mk();
+            let mut uni = acc.clone();
+            uni.push(NIL_VERSION_ID);
+            let fin = absfn::via_api(probe.as_ref(), cl, &uni).unwrap();
+            let mut problem = None;
+            if !errs.is_empty() {
+                problem = Some(format!("{} request(s) failed merely because of overlap, e.g. {:?}", errs.len(), &errs[..errs.len().min(2)]));
+            } else {
+                match chain_wf(&fin) {
+                    Err(e) => problem = Some(format!("after {threads} threads x {per} AddVersions the stored state is not one chain: {e}")),
+                    Ok(n) => {
+                        if n != acc.len() || fin.versions.len() != acc.len() {
+                            problem = Some(format!("{} versions were acknowledged as accepted but the chain holds {} ({} stored): an accepted version was lost or orphaned", acc.len(), n, fin.versions.len()));
+                        }
+                    }
+                }
+            }
+            if let Some(p) = problem {
+                violations.push(json!({"tags": ["C03", "C01"], "what": p, "scenario": format!("{backend}: {threads} threads, each its own Server instance, {per} AddVersions each with rebase-and-retry on conflict (round {round})")}));
+            }
+        }
+    }
     let total_v = violations.len();
     violations.truncate(6);
-    json!({"leg": "interleave", "cases": cases, "cases_where_B_actually_interleaved": fired, "violations": violations, "violations_total": total_v, "samples": samples,
-        "bound": format!("3 backends (in-memory, one SQLite instance, two SQLite instances on one directory) x chain lengths {:?} (0 = client never seen) x 7 request kinds for A (HTTP) x 7 for B (library) x B placed before A's transaction #0..{}; B always runs to completion (no partial overlap of B)", chain_lens, if thorough { 3 } else { 2 })})
+    json!({"leg": "interleave", "thread_stress_runs": stress_runs, "cases": cases, "cases_where_B_actually_interleaved": fired, "violations": violations, "violations_total": total_v, "samples": samples,
+        "bound": format!("3 backends (in-memory, one SQLite instance, two SQLite instances on one directory) x chain lengths {:?} (0 = client never seen) x 7 request kinds for A (HTTP) x 7 for B (library) x B placed before A's transaction #0..{}; B always runs to completion (no partial overlap of B); plus thread stress runs (4 threads with their own Server instances on one in-memory storage / one SQLite directory; a passing run proves nothing, a failing one is a counterexample)", chain_lens, if thorough { 3 } else { 2 })})
 }
